@@ -396,11 +396,17 @@ class Runner {
   }
 
   static void alarmHandler(int) { _exit(99); }
+  // per-case budget: CPU time (a loaded machine must not turn a microsecond case into a "hang"), plus a wall-clock backstop at 20x
+  // for a case that blocks without burning CPU.
   static void armTimer(double s) {
     struct itimerval it; memset(&it, 0, sizeof it);
     it.it_value.tv_sec = (long)s; it.it_value.tv_usec = (long)((s - (long)s) * 1e6);
+    setitimer(ITIMER_VIRTUAL, &it, nullptr);
+    double w = s * 20; memset(&it, 0, sizeof it);
+    it.it_value.tv_sec = (long)w; it.it_value.tv_usec = (long)((w - (long)w) * 1e6);
     setitimer(ITIMER_REAL, &it, nullptr);
   }
+  static void installAlarm() { signal(SIGALRM, alarmHandler); signal(SIGVTALRM, alarmHandler); }
 
   struct Range { uint64_t a, b; };
 
@@ -427,7 +433,7 @@ class Runner {
       if (p == 0) {
         int fd = open(errf.c_str(), O_WRONLY | O_CREAT | O_TRUNC, 0600); if (fd >= 0) { dup2(fd, 2); close(fd); }
         FILE* of = fopen(outf.c_str(), "w"); if (!of) _exit(98);
-        signal(SIGALRM, alarmHandler);
+        installAlarm();
         Slot* sl = &sh->slots[w]; sl->active = 1;
         Out o; Case c; c.out = &o; c.slot = sl; c.space = &name;
         auto doRange = [&](uint64_t a, uint64_t b) {
@@ -457,7 +463,7 @@ class Runner {
       pids[w] = p;
     };
     for (int w = 0; w < W; ++w) spawn(w, {});
-    int live = W;
+    int live = W; uint64_t slowDone = 0;
     std::vector<Viol> crashViols;
     while (live > 0) {
       int status = 0; pid_t p = wait(&status);
@@ -477,7 +483,7 @@ class Runner {
         Out alone; int rs = runAlone(name, fn, k, caseTimeout * 10, alone);
         if (onEmit) { for (auto& e : alone.emitted) onEmit(e); alone.emitted.clear(); }
         res.merge(alone);
-        if (rs == 0) { /* slow, not hanging: results merged by runAlone */ }
+        if (rs == 0) { ++slowDone; /* slow, not hanging: results merged */ }
         else if (rs == 99) { st.hangs++; Viol v; v.sig = "hang|" + site; v.space = name; v.witness = str(k); v.detail = "case did not return within " + num(caseTimeout * 10) + " s (site: " + site + ")"; crashViols.push_back(v); }
         else { st.crashes++; Viol v; v.sig = "crash|" + site + "|after-timeout"; v.space = name; v.witness = str(k); v.detail = "case died when re-run alone"; crashViols.push_back(v); }
       } else if (k < b) {
@@ -522,6 +528,7 @@ class Runner {
       unlink((pf + ".out").c_str()); unlink((pf + ".err").c_str());
     }
     for (auto& v : crashViols) { res.addViol(v); executed++; }
+    executed += slowDone;
     // hangs resolved as "slow" were executed too
     st.executed = executed;
     st.complete = (executed >= size);
@@ -535,7 +542,7 @@ class Runner {
     pid_t p = fork();
     if (p == 0) {
       int fd = open((std::string(pf) + ".err").c_str(), O_WRONLY | O_CREAT | O_TRUNC, 0600); if (fd >= 0) { dup2(fd, 2); close(fd); }
-      signal(SIGALRM, alarmHandler);
+      installAlarm();
       Out o; Case c; c.out = &o; c.space = &name; c.witness = str(k); o.evals = 1;
       armTimer(budget); fn(k, c); armTimer(0);
       FILE* of = fopen((std::string(pf) + ".out").c_str(), "w"); if (of) { o.write(of); fclose(of); }
@@ -565,7 +572,7 @@ class Runner {
     fflush(stdout);
     pid_t p = fork();
     if (p == 0) {
-      signal(SIGALRM, alarmHandler);
+      installAlarm();
       Out o; Case c; c.out = &o; c.space = &name; c.witness = witness; c.verbose = true;
       static Slot sl; c.slot = &sl;
       armTimer(budget); body(c); armTimer(0);
